@@ -299,7 +299,7 @@ func Execute(w *World, tape *simrt.Tape, gold []*Golden, onFatal func(int, strin
 	cfg := simrt.Config{
 		Tape: tape, Policy: w.Cfg.Policy, SwitchPct: w.Cfg.SwitchPct, PCTDepth: w.Cfg.PCTDepth,
 		PoolFreshPct: w.Cfg.PoolFreshPct, PoolAnyPct: w.Cfg.PoolAnyPct, PoolDropPct: w.Cfg.PoolDropPct,
-		FPYieldPct: w.Cfg.FPYieldPct, ClockVaryPct: w.Cfg.ClockVaryPct, CPUVary: w.Cfg.CPUVary, RandVary: w.Cfg.RandVary, OnFatal: onFatal,
+		FPYieldPct: w.Cfg.FPYieldPct, ClockVaryPct: w.Cfg.ClockVaryPct, CPUVary: w.Cfg.CPUVary, RandVary: w.Cfg.RandVary, KeepPools: w.Cfg.KeepPools, OnFatal: onFatal,
 	}
 	simrt.Begin(cfg)
 
